@@ -38,6 +38,7 @@ def run(tier, seed):
     fns = loader_functions(prog)
     _regex(rep, prog, fns)
     _finite(rep, prog, fns)
+    _erange(rep, prog)
     rep.analysed['functions with stream extraction'] = [f['qn'] for f in fns]
     n = 0
     for fn in fns:
@@ -485,3 +486,38 @@ def _finite(rep, prog, fns):
     rep.add('FINITE.text-to-float', 'all', 'bxdecay0/', '%d library functions reachable from the file loaders scanned: %d text-to-float '
             'conversion(s) outside stream extraction' % (nfun, nuse), True, nontrivial=False)
     rep.floor('FINITE.text-to-float', nfun, 15)
+
+
+# ---------------------------------------------------------------- BOUNDS e-range
+def _erange(rep, prog):
+    """the sampling header's energy range is refused when it is empty *or of zero width*: with E_max == E_min every grid node is the
+    same value and gsl_interp2d_init() calls the GSL error handler (abort) - a crash on a malformed table instead of an error"""
+    rep.rule('BOUNDS.e-range', 'every throw guard of the gA table loaders that compares the header\'s E_min with E_max refuses equality as '
+             'well (E_min >= E_max): a zero-width range gives a grid of identical nodes, on which the GSL interpolator aborts')
+    n = 0
+    for f in sorted(prog.functions.values(), key=lambda x: x['qn']):
+        if not f.get('file', '').endswith('dbd_gA.cc') or not f.get('body'):
+            continue
+        F = cppflow.Flow(f)
+        for b, arm in F.throw_guards():
+            for x in ir.subexprs(b.stmt[1]):
+                if not (x[0] == 'op' and x[1] in ('<', '<=', '>', '>=') and len(x) == 4):
+                    continue
+                ta, tb = ir.fmt(x[2]).lower(), ir.fmt(x[3]).lower()
+                mn = lambda t: 'e_min' in t or 'emin' in t
+                mx = lambda t: 'e_max' in t or 'emax' in t
+                if not ((mn(ta) and mx(tb)) or (mx(ta) and mn(tb))) or 'esum' in ta + tb:
+                    continue
+                n += 1
+                # normalise to `E_min OP E_max` on the throwing arm (arm 0 = condition true throws)
+                op = x[1]
+                if mx(ta):
+                    op = {'<': '>', '<=': '>=', '>': '<', '>=': '<='}[op]
+                if arm == 1:
+                    op = {'<': '>=', '<=': '>', '>': '<=', '>=': '<'}[op]
+                ok = op == '>='
+                rep.add('BOUNDS.e-range', '%s:%d' % (f['name'], n), where(f, b.line),
+                        '%s: the range test refuses E_min >= E_max (throws when E_min %s E_max)' % (f['name'], op), ok,
+                        None if ok else ['a header with E_max == E_min passes this test: all grid nodes coincide and the interpolator '
+                                         'initialisation aborts the process'])
+    rep.floor('BOUNDS.e-range', n, 1)
